@@ -163,6 +163,19 @@ func (fx *FX) runTop() (errmsg string) {
 			for k, v := range fx.contractNames(c, nil, fn.Signature, nil, rs, nil) {
 				env.names[k] = v
 			}
+			if len(c.EnsuresPre) > 0 {
+				envp := fx.newEnv(fr, x.st)
+				envp.old = fx.oldState
+				for k, vv := range env.names {
+					envp.names[k] = vv
+				}
+				fx.addAllLoopNames(fr, envp)
+				envp.goal = true
+				for j, cl := range c.EnsuresPre {
+					g := fx.evalBool(envp, cl.Expr)
+					fx.oblige(x.st, "post", fmt.Sprintf("ensures-before-exit#%d%s@ret#%d", j+1, lbl(cl), x.idx+1), cl.Text, g, x.pos, propsOr(cl.Props, c.Props))
+				}
+			}
 			if len(c.GhostExit) > 0 {
 				envx := fx.newEnv(fr, x.st)
 				envx.old = fx.oldState
